@@ -49,7 +49,8 @@ def isPrefix : RelPath → RelPath → Bool
 
 /-- `File::create` + `sync_all` (`create_file`): creates or truncates -/
 def FS.createFile (fs : FS) (p : RelPath) : Option FS :=
-  if fs.isDir p then none
+  if p.isEmpty then none   -- the root itself can never be created as a file (even after it was removed)
+  else if fs.isDir p then none
   else if !fs.parentIsDir p then none
   else some (fs.set p (.file []))
 
@@ -95,7 +96,8 @@ def FS.removeDirAll (fs : FS) (p : RelPath) : Option FS :=
 
 /-- write a whole file, creating or truncating it (`open(create, write, truncate)` + `io::copy`) -/
 def FS.writeFile (fs : FS) (p : RelPath) (c : Bytes) : Option FS :=
-  if fs.isDir p then none
+  if p.isEmpty then none
+  else if fs.isDir p then none
   else if !fs.parentIsDir p then none
   else some (fs.set p (.file c))
 
